@@ -1,7 +1,7 @@
 (** C06: specification ([fold_spec]) and proofs about ArgH/Cont.v. *)
 From Coq Require Import List NArith ZArith Bool Arith Permutation Sorted Lia Morphisms RelationClasses.
 Import ListNotations.
-Require Import Celma.Common.Res Celma.ArgH.Key Celma.ArgH.Handler Celma.ArgH.Cont.
+Require Import Celma.Common.Res Celma.Common.ListX Celma.ArgH.Key Celma.ArgH.Handler Celma.ArgH.Cont.
 
 (* ------------------------------------------------------------------ *)
 (** * The specification: the destination as a function of the flat token sequence *)
@@ -425,18 +425,18 @@ Proof.
   intros S P. destruct k; simpl in S; try discriminate S; simpl; auto using Permutation_app_tail.
 Qed.
 
-Lemma firstn_S_upd {A} (l : list A) i v : firstn (S i) (upd l i v) = firstn i l ++ [v].
+Lemma firstn_S_upd l i v : firstn (S i) (arr_set l i v) = firstn i l ++ [v].
 Proof.
-  unfold upd. destruct (Nat.le_gt_cases i (length l)) as [H|H].
+  unfold arr_set. destruct (Nat.le_gt_cases i (length l)) as [H|H].
   - replace (S i) with (length (firstn i l) + 1) at 1 by (rewrite firstn_length; lia).
     rewrite firstn_app_2. simpl. reflexivity.
   - rewrite (firstn_all2 l) by lia. rewrite (skipn_all2 l) by lia.
     rewrite firstn_all2; auto. rewrite app_length. simpl. lia.
 Qed.
 
-Lemma skipn_S_upd {A} (l : list A) i v : skipn (S i) (upd l i v) = skipn (S i) l.
+Lemma skipn_S_upd l i v : skipn (S i) (arr_set l i v) = skipn (S i) l.
 Proof.
-  unfold upd. destruct (Nat.le_gt_cases i (length l)) as [H|H].
+  unfold arr_set. destruct (Nat.le_gt_cases i (length l)) as [H|H].
   - replace (S i) with (length (firstn i l) + 1) at 1 by (rewrite firstn_length; lia).
     rewrite skipn_app. rewrite skipn_all2 by (rewrite firstn_length; lia).
     replace (length (firstn i l) + 1 - length (firstn i l)) with 1 by lia. reflexivity.
@@ -446,7 +446,23 @@ Qed.
 
 Lemma skipn_S_eq {A} (l l' : list A) i : skipn i l = skipn i l' -> skipn (S i) l = skipn (S i) l'.
 Proof.
-  intros H. change (S i) with (1 + i). rewrite <- !Celma.Common.ListX.skipn_skipn'. rewrite H. reflexivity.
+  intros H. change (S i) with (1 + i). rewrite <- !skipn_skipn'. rewrite H. reflexivity.
+Qed.
+
+Lemma step_arr_cperm n o t l l0 idx :
+  Permutation (firstn idx l) (firstn idx l0) -> skipn idx l = skipn idx l0 ->
+  res_rel cperm (step_arr arr_contains n o t l idx) (step_arr arr_contains n o t l0 idx).
+Proof.
+  intros P Sk. unfold step_arr.
+  destruct (Nat.eqb idx n); simpl; auto.
+  destruct (run_checks (o_checks o) t); simpl; auto.
+  destruct (lex_int (apply_fmts (o_fmts o) t)) as [v| |]; simpl; auto.
+  unfold arr_contains. rewrite (z_in_perm v _ _ P).
+  destruct (o_uniq o && z_in v (firstn idx l0)); cbn -[firstn skipn].
+  - destruct (o_dup_err o); simpl; auto.
+  - repeat split.
+    + rewrite !firstn_S_upd. apply Permutation_app_tail; auto.
+    + rewrite !skipn_S_upd. apply skipn_S_eq; auto.
 Qed.
 
 Lemma step_gen_cperm k o t c c' :
@@ -467,15 +483,7 @@ Proof.
     destruct E as [<- [P Sk]].
     destruct k; simpl in S; try discriminate S;
       try (unfold step, step_gen; simpl; auto; fail);
-      unfold step, step_gen, step_arr;
-      (destruct (Nat.eqb idx n); simpl; auto;
-       destruct (run_checks (o_checks o) t); simpl; auto;
-       destruct (lex_int (apply_fmts (o_fmts o) t)); simpl; auto;
-       unfold arr_contains; rewrite (z_in_perm a0 _ _ P);
-       destruct (o_uniq o && z_in a0 (firstn idx l0)); simpl;
-       [destruct (o_dup_err o); simpl; auto|];
-       repeat split; [rewrite !firstn_S_upd; apply Permutation_app_tail; auto
-                     |rewrite !skipn_S_upd; apply skipn_S_eq; auto]).
+      unfold step, step_gen; apply step_arr_cperm; auto.
   - (* CStrs *)
     destruct k; simpl in S; try discriminate S;
       try (unfold step, step_gen; simpl; auto; fail).
@@ -493,7 +501,8 @@ Proof.
   - destruct (Nat.le_gt_cases idx (length l)) as [H|H].
     + assert (Hl : length (sort_by Z.ltb (firstn idx l)) = idx).
       { rewrite (Permutation_length (sort_by_perm Z.ltb (firstn idx l))), firstn_length. lia. }
-      rewrite <- Hl at 1. rewrite firstn_app_2. simpl. rewrite app_nil_r. apply sort_by_perm.
+      rewrite firstn_app, Hl, Nat.sub_diag. simpl firstn at 2. rewrite app_nil_r.
+      rewrite firstn_all2 by lia. apply sort_by_perm.
     + rewrite (skipn_all2 l) by lia. rewrite app_nil_r.
       rewrite (firstn_all2 l) by lia. rewrite firstn_all2.
       * apply sort_by_perm.
@@ -501,7 +510,7 @@ Proof.
   - destruct (Nat.le_gt_cases idx (length l)) as [H|H].
     + assert (Hl : length (sort_by Z.ltb (firstn idx l)) = idx).
       { rewrite (Permutation_length (sort_by_perm Z.ltb (firstn idx l))), firstn_length. lia. }
-      rewrite <- Hl at 1. rewrite skipn_app, skipn_all, Nat.sub_diag. reflexivity.
+      rewrite skipn_app, Hl, Nat.sub_diag. rewrite skipn_all2 by lia. reflexivity.
     + rewrite (skipn_all2 l) by lia. rewrite app_nil_r. apply skipn_all2.
       rewrite (Permutation_length (sort_by_perm Z.ltb _)), firstn_length. lia.
 Qed.
